@@ -56,7 +56,9 @@ func (r *symlinkResolver) follow(p string, depth int) error {
 			p = absParts[1]
 		}
 	}
-	p = filepath.Join(".", p)
+	// the root of the FS is "/" for the request: ".." elements that would
+	// climb above it stay there instead of leaving the tree
+	p = filepath.Join(".", filepath.Join(string(filepath.Separator), p))
 	current := "."
 	for {
 		parts := strings.SplitN(p, string(filepath.Separator), 2)
